@@ -215,6 +215,76 @@ def parse (H : Hash) (d : Bytes) : Except Err (Nat × Nat) :=
             | .error e => .error e
             | .ok (ne, _) => .ok (nc, ne)
 
+/-! ### `parse` with the entry parsers as parameters, and the page layout (extension) -/
+
+/-- `EncodingFile::parse` with the two page-entry parsers as PARAMETERS (what is left is the
+header + ESpec + index + page-checksum stage). `parse` is the instance with `ckPe` / `ekPe`
+(`parse_eq_parseWith`, by `rfl`). -/
+def parseWith (H : Hash) (peC peE : Header → Bytes → Except Err Nat) (d : Bytes) : Except Err (Nat × Nat) :=
+  match readHeader d with
+  | .error e => .error e
+  | .ok h =>
+    if !headerOk h then .error .header
+    else if d.length < dataSize h then .error .io
+    else if d.length < 22 + h.especSize then .error .io
+    else if !especOk (slice d 22 h.especSize) true then .error .espec
+    else
+      let r1 := d.drop (22 + h.especSize)
+      if r1.length < 32 * h.ckCount then .error .io
+      else
+        match parsePages H (peC h) (h.ckKb * 1024) (readIndex h.ckCount r1) (r1.drop (32 * h.ckCount)) with
+        | .error e => .error e
+        | .ok (nc, r2) =>
+          if r2.length < 32 * h.ekCount then .error .io
+          else
+            match parsePages H (peE h) (h.ekKb * 1024) (readIndex h.ekCount r2) (r2.drop (32 * h.ekCount)) with
+            | .error e => .error e
+            | .ok (ne, _) => .ok (nc, ne)
+
+/-- the CKey / EKey page entry loops as instances of the parameter. -/
+def ckPe (h : Header) (p : Bytes) : Except Err Nat := ckeyEntries h.ckHash h.ekHash p.length p
+def ekPe (h : Header) (p : Bytes) : Except Err Nat := .ok (ekeyEntries h.ekHash p.length p)
+
+theorem parse_eq_parseWith (H : Hash) (d : Bytes) : parse H d = parseWith H ckPe ekPe d := rfl
+
+/-- the entry parser run over `n` consecutive pages of `ps` bytes, no hashing: the part of
+`parsePages` that is NOT the integrity check. -/
+def entriesOf (pe : Bytes → Except Err Nat) (ps : Nat) : Nat → Bytes → Except Err Nat
+  | 0, _ => .ok 0
+  | k + 1, rest =>
+    match pe (rest.take ps) with
+    | .error e => .error e
+    | .ok n =>
+      match entriesOf pe ps k (rest.drop ps) with
+      | .error e => .error e
+      | .ok m => .ok (n + m)
+
+/-- byte offsets of the four tables of a file with header `h` (ESpec block first, then CKey index,
+CKey pages, EKey index, EKey pages; whatever follows `end_` is the trailing self-describing ESpec). -/
+structure Layout where
+  ckIndex : Nat
+  ckPages : Nat
+  ekIndex : Nat
+  ekPages : Nat
+  end_ : Nat
+deriving DecidableEq, Repr
+
+def layout (h : Header) : Layout :=
+  let a := 22 + h.especSize
+  let b := a + 32 * h.ckCount
+  let c := b + h.ckCount * (h.ckKb * 1024)
+  let e := c + 32 * h.ekCount
+  { ckIndex := a, ckPages := b, ekIndex := c, ekPages := e, end_ := e + h.ekCount * (h.ekKb * 1024) }
+
+/-- page `i` of a table whose pages start at `off`, and the 16 checksum bytes of index entry `i`
+of an index that starts at `off`. -/
+def pageAt (d : Bytes) (off ps i : Nat) : Bytes := slice d (off + i * ps) ps
+def sumAt (d : Bytes) (off i : Nat) : Bytes := slice d (off + (32 * i + 16)) 16
+
+/-- (stored checksum, page) of every page of one table, in file order. -/
+def pageMap (d : Bytes) (idxOff pagesOff ps n : Nat) : List (Bytes × Bytes) :=
+  (List.range n).map fun i => (sumAt d idxOff i, pageAt d pagesOff ps i)
+
 end Enc
 
 /-! ## Archive index footer -/
@@ -303,6 +373,10 @@ def hashedOf (x : Entry) : Bytes :=
 
 /-- `hashlittle(bytes[4..23], 0) | 0x8000_0000` with `HL` the 32-bit hash as a natural. -/
 def guardOf (HL : Bytes → Nat) (r : Bytes) : Nat := HL r % 2 ^ 31 + 2 ^ 31
+
+/-- the Rust expression itself: `hashlittle(…) | 0x8000_0000` on a `u32` (`= guardOf` by
+`Proofs.Integrity.Upd.guardOf_eq_or`). -/
+def guardOr (hl : BitVec 32) : Nat := (hl ||| 0x80000000#32).toNat
 
 /-- `validate_hash_guard` on a parsed entry: recomputes over the RE-SERIALISED fields. -/
 def validate (HL : Bytes → Nat) (e : Bytes) : Bool :=
